@@ -67,7 +67,14 @@ def alias_attempts(chk):
             chk.report("c03-handle-lifetime", {"route": name, "source": src, "impl": {k: v for k, v in r.items() if k in ("status", "cat", "msg", "stdout", "signal")},
                                                "expected": "a declaration made while the handle is in use gets its own qubit: every printed bit is 0"},
                        "route %s: a handle read from an object that died was recycled under a new declaration: printed %r" % (name, out))
-    return len(ps), len(lt), kinds
+    sres = lc.run_impl([x[1] for x in ag.STANDALONE], opts="draws=0.5,0.5,0.5,0.5,0.5,0.5")
+    for (name, src, want), r in zip(ag.STANDALONE, sres):
+        rejected = r.get("status") == "error" and r.get("cat") in ("Semantic", "Runtime")
+        if not (rejected or (r.get("status") == "ok" and r.get("stdout") == want)):
+            chk.report("c03-standalone", {"case": name, "source": src, "expected": "rejected, or prints %r" % want,
+                                          "impl": {k: v for k, v in r.items() if k in ("status", "cat", "msg", "stdout", "signal")}},
+                       "%s: printed %r (two declarations share a qubit, or the state is no longer a finite unit vector)" % (name, r.get("stdout")))
+    return len(ps) + len(ag.STANDALONE), len(lt), kinds
 
 def run(chk):
     quick = chk.tier == "quick"
